@@ -7,6 +7,8 @@
   compared with: Gama/Model/ReviseSpec.lean.
 -/
 import Gama.Lemmas.ReviseView
+import Gama.Lemmas.ReviseLoopCard
+import Gama.Lemmas.ReviseSwap
 import Gama.Lemmas.ReviseField
 import Mathlib.Analysis.SpecialFunctions.Sqrt
 namespace Gama.Props.C14
@@ -131,20 +133,67 @@ theorem C14_results_equal_deletion [Scalar K] {σ τ ρ : Type}
 theorem C14_requirements_are_spec (pts : List (Pt K)) (o : Obs K) : reqOk pts o = Spec.usable pts o :=
   reqOk_eq_usable pts o
 
-/-- SOUND AND COMPLETE.  A revision maps every observation of a cluster by one function `g`, and the
-    result is passive **iff** the observation was passive already, or is not usable (specification
-    tables over the regenerated requirement table: a role is not a point of the network, a coordinate
-    group its geometry reads is unknown, a group that must take part does not), or it is a direction
-    of a `StandPoint` cluster whose active usable directions have fewer than two distinct targets
-    (`Spec.usableTargets`, counted on the input). -/
+/-- **The requirements are symmetric in the two ends.**  For every observation type with a station end
+    and a target end (direction, distance, height difference, slope distance, zenith angle, coordinate
+    differences, azimuth — all types but `x`, `y`, `z` and `angle`) the REGENERATED row of
+    `LocalRevision` has the shape `[(from, f), (to, f)]`: the same predicates, in the same order, are
+    required of both ends (`decide` on the generated table).  What that means: the verdict is the
+    conjunction of one and the same test on the two end points, so the same observation written from the
+    other end gets the same verdict.  The types for which "written from the other end" is the same
+    measurement are distance and slope distance (value unchanged) and height / coordinate differences
+    (value negated): `swapNegates`. -/
+theorem C14_requirements_symmetric (t : ObsType) (ht : twoEnded t = true) :
+    (∃ f : List Flag, Gen.requirements t = [(.from, f), (.to, f)]) ∧
+    (∀ (v : Obs K → K) (pts : List (Pt K)) (o : Obs K), o.ty = t →
+      reqOk pts (swapEnds v o) = reqOk pts o ∧
+      (localRev pts (swapEnds v o)).active = (localRev pts o).active) ∧
+    (swappable t = true → (swapNegates t).isSome = true) := by
+  obtain ⟨f, hf⟩ := Option.isSome_iff_exists.mp (symFlags_isSome t ht)
+  refine ⟨⟨f, requirements_of_symFlags hf⟩, fun v pts o ho => ?_, fun h => by cases t <;> simp_all [swappable, swapNegates]⟩
+  have h := reqOk_swapEnds v pts o (ho ▸ ht)
+  exact ⟨h, by simp only [localRev, h]; rfl⟩
+
+/-- SOUND AND COMPLETE, repeated readings included.  A revision maps every observation of a cluster by
+    one function `g`, and the result is passive **iff** the observation was passive already, or is not
+    usable (specification tables over the regenerated requirement table: a role is not a point of the
+    network, a coordinate group its geometry reads is unknown, a group that must take part does not),
+    or it is a direction of a `StandPoint` cluster in which FEWER THAN TWO DISTINCT TARGETS HAVE AT
+    LEAST ONE active usable reading: `usableTargetSet pts c.obs` is a `Finset` on the input (so
+    neither the order of the readings, nor how often a target is read, nor which of its readings are
+    passive can matter), its members are characterised in the second conjunct.  The count is the one
+    the loop AS CODED computes (`activeDirections`: regenerated body, `std::set` in insertion order). -/
 theorem C14_excluded_iff_reason (pts : List (Pt K)) (c : Cluster K) :
-    ∃ g : Obs K → Obs K, (reviseCl pts c).obs = c.obs.map g ∧
+    (∃ g : Obs K → Obs K, (reviseCl pts c).obs = c.obs.map g ∧
       ∀ o, (g o).active = false ↔
         (o.active = false ∨ Spec.usable pts o = false ∨
-         (c.stand = true ∧ o.ty = .direction ∧ Spec.usableTargets pts c.obs < 2)) := by
-  refine ⟨_, reviseCl_obs pts c, fun o => ?_⟩
-  rw [← distinctTargets_localRev]
-  exact ⟨passive_reason pts c o, reason_passive pts c o⟩
+         (c.stand = true ∧ o.ty = .direction ∧ (usableTargetSet pts c.obs).card < 2))) ∧
+    (∀ t, t ∈ usableTargetSet pts c.obs ↔
+      ∃ o ∈ c.obs, o.ty = .direction ∧ o.active = true ∧ Spec.usable pts o = true ∧ o.to = t) ∧
+    activeDirections (c.obs.map (localRev pts)) = (usableTargetSet pts c.obs).card := by
+  refine ⟨⟨_, reviseCl_obs pts c, fun o => ?_⟩, mem_usableTargetSet pts c.obs, ?_⟩
+  · rw [← usableTargets_eq_card, ← distinctTargets_localRev]
+    exact ⟨passive_reason pts c o, reason_passive pts c o⟩
+  · rw [activeDirections_eq, distinctTargets_localRev, usableTargets_eq_card]
+
+/-- **The direction-set rule, exactly, for the loop as coded.**  `revision_observations()` walks
+    `sp->observation_list` with `std::set<PointID> targets` and `int active_directions` (the loop body
+    and the test `active_directions < 2` are REGENERATED: `Gen.targetsBody`, `Gen.standCmp`,
+    `Gen.standBound`).  For EVERY list of observations — any order of the readings, any targets read
+    repeatedly, any pattern of passive readings (`A, A, B` or `A, B, A` with the first reading of `A`
+    passive included):
+    (1) the counter ends as the number of distinct targets having at least one ACTIVE reading;
+    (2) that set is exactly `{t | ∃ direction o in the list, o active, o.to = t}`;
+    (3) the directions of the set are made passive iff the cluster is a `StandPoint` and that number is
+        below two — otherwise the cluster is left alone;
+    (4) the counter does not depend on the order of the list. -/
+theorem C14_direction_set_rule_exact (c : Cluster K) :
+    activeDirections c.obs = (activeTargetSet c.obs).card ∧
+    (∀ t, t ∈ activeTargetSet c.obs ↔ ∃ o ∈ c.obs, o.ty = .direction ∧ o.active = true ∧ o.to = t) ∧
+    standRule c =
+      (if c.stand = true ∧ (activeTargetSet c.obs).card < 2 then { c with obs := c.obs.map passDir } else c) ∧
+    (∀ os' : List (Obs K), os'.Perm c.obs → activeDirections os' = activeDirections c.obs) := by
+  refine ⟨activeDirections_eq_card c.obs, mem_activeTargetSet c.obs, standRule_card c, fun os' h => ?_⟩
+  rw [activeDirections_eq_card, activeDirections_eq_card, activeTargetSet_perm h]
 
 /-! ## every exclusion is recorded -/
 
@@ -352,6 +401,33 @@ example : (deleteItems exNet (excluded (revise exNet))).pts.map (·.id) = [1, 2,
 example : (activeView (revise exNet)).2.map (fun c => c.2.length) = [3, 1] := by decide
 /-- completeness, instance: station 3 has one usable direction target; its direction is passive -/
 example : exNet.cls.map (fun c => Spec.usableTargets exNet.pts c.obs) = [2, 1] := by decide
+/-- repeated readings: station 1 reads A=2, A=2, B=3 and the FIRST reading of A is passive (a removed
+    blunder); likewise A, B, A.  Two distinct targets have an active reading: the loop as coded counts 2,
+    the set stays, and a revision keeps the three active readings. -/
+def repObs (order : List (Nat × Bool)) : List (Obs Rat) :=
+  order.map (fun q => { ty := .direction, frm := 1, «to» := q.1, fs := 0, active := q.2, value := 0 })
+def repNet (order : List (Nat × Bool)) : Net Rat :=
+  { exNet with cls := [{ stand := true, actObs := 0, cov := fun _ _ => 0, obs := repObs order }] }
+example : ((repNet [(2, false), (2, true), (3, true)]).cls.map fun c => activeDirections c.obs) = [2] := by decide
+example : ((repNet [(2, false), (3, true), (2, true)]).cls.map fun c => activeDirections c.obs) = [2] := by decide
+example : ((repNet [(2, false), (2, false), (3, true)]).cls.map fun c => activeDirections c.obs) = [1] := by decide
+example : (revise (repNet [(2, false), (2, true), (3, true)])).cls.map (fun c => c.obs.map (·.active)) = [[false, true, true]] := by
+  decide
+example : (revise (repNet [(2, false), (3, true), (2, true)])).cls.map (fun c => c.obs.map (·.active)) = [[false, true, true]] := by
+  decide
+example : (revise (repNet [(2, false), (2, false), (3, true)])).cls.map (fun c => c.obs.map (·.active)) = [[false, false, false]] := by
+  decide
+/-- `std::set` in insertion order after the loop -/
+example : ((repNet [(3, true), (2, false), (2, true), (3, true)]).cls.map fun c => (countTargets c.obs).targets) = [[3, 2]] := by decide
+/-- a distance from the adjusted point 3 to a point 5 that has coordinates but no status (listed with x, y
+    only): dropped, and dropped as well when written 5 → 3 -/
+def unusedPts : List (Pt Rat) :=
+  exNet.pts ++ [{ id := 5, sxy := .unused, sz := .unused, hxy := true, hz := false, x := 7, y := 7, z := 0 }]
+example : (localRev unusedPts { ty := .distance, frm := 3, «to» := 5, fs := 0, active := true, value := 8 }).active = false ∧
+    (localRev unusedPts (swapEnds (·.value) { ty := .distance, frm := 3, «to» := 5, fs := 0, active := true, value := 8 })).active = false ∧
+    (localRev unusedPts { ty := .distance, frm := 3, «to» := 2, fs := 0, active := true, value := 4 }).active = true ∧
+    (localRev unusedPts (swapEnds (·.value) { ty := .distance, frm := 3, «to» := 2, fs := 0, active := true, value := 4 })).active = true := by
+  decide
 /-- rows/columns of a correlated block: observations 1 and 3 of three stay -/
 example : covView (fun i j => (10 * i + j : Nat)) [true, false, true] = [[11, 13], [31, 33]] := by decide
 example : (deleteCl { stand := false, actObs := 0, cov := fun i j => (10 * i + j : Nat), obs :=
